@@ -393,5 +393,5 @@ def streams(tier, avoid):
         Stream("batt_faults", body_batt, strategy=batt, n={"quick": 20, "thorough": 150},
                reduce=_reduce_b),
         Stream("interleaved_edits", body_edits, strategy=edit_cases(),
-               n={"quick": 80, "thorough": 1000}),
+               n={"quick": 220, "thorough": 1500}),
     ]
